@@ -341,3 +341,7 @@ def run(repo: Repo, rep: Report, tier: str) -> None:
     from .shared import borrow as _borrow16
     _borrow16(repo, rep, "C15", "C15-R9", "C16-R8", "the iterator keeps its value across a call made in the loop body: the lowerer's name tables are put back from a snapshot after a "
               "function body, so a callee-local named like the iterator cannot replace it", floor=2)
+
+    # ---------------- R9 ---------------------------------------------------------------
+    _borrow16(repo, rep, "C15", "C15-R3", "C16-R9", "a memory declared in a loop body is one cell per iteration: the re-declaration is recognised by id",
+              select=lambda o: "indexes every node" in o.construct, floor=1)
